@@ -21,28 +21,28 @@ import (
 
 // VerifChooser supplies every nondeterministic decision of one execution.
 type VerifChooser interface {
-	In(n int) int               // input dimension (fully enumerated)
-	Env(n int) int              // environment answer; != 0 is a deviation
-	Sched(n int, w []int) int   // scheduling decision
+	In(n int) int             // input dimension (fully enumerated)
+	Env(n int) int            // environment answer; != 0 is a deviation
+	Sched(n int, w []int) int // scheduling decision
 }
 
 // VerifCfg is one queue configuration (chosen by the driver through In()).
 type VerifCfg struct {
-	Upload      bool
-	Adds        []string // sequence of object names added by the producer, e.g. A B A
-	BatchSize   int
-	Workers     int
-	MaxRetries  int
-	MaxDelay    int // seconds; 0 = not configured (default), -1 = configured as 0 (no delays between retries)
-	Watchers    int
-	DryRun      bool
-	Scratch     string // directory with upload source files
-	AllPoints   bool
-	NewestFirst    bool // default scheduler: newest enabled thread first (else oldest first)
-	ContextBounded bool // CHESS-style: only preemptions cost; switches at blocking points are free (much larger space)
-	ExpiryForms bool // C15: let the env pick expiry forms
-	NoEnv       string // comma list of env classes pinned to their default (to focus budgets)
-	ForceFail   bool   // C15: every adapter attempt fails retriably (reach the end of the retry budget)
+	Upload         bool
+	Adds           []string // sequence of object names added by the producer, e.g. A B A
+	BatchSize      int
+	Workers        int
+	MaxRetries     int
+	MaxDelay       int // seconds; 0 = not configured (default), -1 = configured as 0 (no delays between retries)
+	Watchers       int
+	DryRun         bool
+	Scratch        string // directory with upload source files
+	AllPoints      bool
+	NewestFirst    bool   // default scheduler: newest enabled thread first (else oldest first)
+	ContextBounded bool   // CHESS-style: only preemptions cost; switches at blocking points are free (much larger space)
+	ExpiryForms    bool   // C15: let the env pick expiry forms
+	NoEnv          string // comma list of env classes pinned to their default (to focus budgets)
+	ForceFail      bool   // C15: every adapter attempt fails retriably (reach the end of the retry budget)
 	// Free: run WITHOUT the controlled scheduler (plain goroutines; used by the -race pass on the unrewritten package).
 	// Environment answers then come from FreeScript ("class#k" -> answer for the k-th choice of that class).
 	Free       bool
@@ -69,9 +69,9 @@ type VerifObs struct {
 	Points     int
 	Now        time.Duration
 	Errors     []string
-	Delivered  []map[string]int // per watcher: oid -> count
-	Succeeded  map[string]int   // adapter successes per oid
-	NoAction   map[string]bool  // server declared no transfer needed (last word)
+	Delivered  []map[string]int    // per watcher: oid -> count
+	Succeeded  map[string]int      // adapter successes per oid
+	NoAction   map[string]bool     // server declared no transfer needed (last word)
 	BatchErr   map[string][]string // marker of failed batch call -> oids in that call
 	Attempts   []VerifAttempt
 	EnvTrace   []string
@@ -87,19 +87,19 @@ func verifOid(name string) string {
 }
 
 type verifEnv struct {
-	ch      VerifChooser
-	cfg     VerifCfg
-	obs     *VerifObs
-	pinned  map[string]bool
-	ncall   int
-	open    map[string]int // adapter invocations currently open per oid
+	ch            VerifChooser
+	cfg           VerifCfg
+	obs           *VerifObs
+	pinned        map[string]bool
+	ncall         int
+	open          map[string]int // adapter invocations currently open per oid
 	stickyBatch   int
 	stickyAdapter int
 	mu            vsched.FreeMutex // guards harness state in free-running mode only
 	freeCount     map[string]int
-	gen     int
-	expiry  map[string]time.Time // action href -> instant at which the server said it expires (zero: never)
-	lastAct map[string]string
+	gen           int
+	expiry        map[string]time.Time // action href -> instant at which the server said it expires (zero: never)
+	lastAct       map[string]string
 }
 
 func (e *verifEnv) env(class string, n int) int {
